@@ -127,6 +127,7 @@ type exchange struct {
 	released      []int
 	opens, closes int // accessor opens / closes through the store wrapper
 
+	leftOpen bool         // the handler returned without closing or resetting its stream
 	escaped any           // panic that escaped the registered handler (would kill the node)
 	done    chan struct{} // handler returned
 
@@ -520,6 +521,18 @@ func (h *fhost) NewStream(_ context.Context, _ peer.ID, pids ...protocol.ID) (ne
 						ex.mu.Lock()
 						ex.escaped = fmt.Sprintf("%v", r)
 						ex.mu.Unlock()
+					}
+				}()
+				defer func() {
+					// a handler that returns without Close or Reset leaves the stream open until
+					// the peer gives up; record it and tear the stream down so the client returns
+					ex.mu.Lock()
+					left := ex.closed == 0 && len(ex.resets) == 0
+					ex.leftOpen = left
+					ex.mu.Unlock()
+					if left {
+						srv.server = false // the harness's own reset is not a server action
+						_ = srv.Reset()
 					}
 				}()
 				fn(srv)
